@@ -35,7 +35,12 @@ type tdesc struct {
 type gdesc struct {
 	Targets []tdesc `json:"targets"`
 	WF      bool    `json:"wf"` // every hidden target is a `_x#tag` whose parent x exists, rule blocks are contiguous
+	// RC: well-named like WF (every `_x#tag` has its rule x) but the targets are in arbitrary order, so a sub-target may
+	// depend on its own rule and RULES may depend on each other cyclically through their sub-targets (the targets stay acyclic)
+	RC bool `json:"rc,omitempty"`
 }
+
+func (d gdesc) oracleOK() bool { return d.WF || d.RC }
 
 var langs = []string{"go", "py", "cc"}
 
@@ -321,9 +326,14 @@ func (r *ref) connects(a, b string, except map[string]bool) bool {
 	return false
 }
 
-// an edge between a rule and its own hidden sub-targets costs nothing (unless hidden targets are shown)
-func cost(u, v string, hidden bool) int {
-	if !hidden && ruleOf(u) == ruleOf(v) {
+// an edge between a rule and its own hidden sub-targets costs nothing (unless hidden targets are shown).
+// deps (forward, u depends on v): free only INTO a sub-target of u's rule (a sub-target depending on its own rule
+// pays a level: the rule is printed).  revdeps (reverse, v depends on u): free whenever both belong to one rule.
+func cost(u, v string, hidden, reverse bool) int {
+	if hidden || ruleOf(u) != ruleOf(v) {
+		return 1
+	}
+	if reverse || isSub(v) {
 		return 0
 	}
 	return 1
@@ -363,7 +373,7 @@ func (r *ref) dist(starts []string, hidden, reverse bool) map[string]int {
 				if _, ok := dist[v]; !ok {
 					continue
 				}
-				c := cost(u, v, hidden)
+				c := cost(u, v, hidden, reverse)
 				if dist[u]+c < dist[v] {
 					dist[v] = dist[u] + c
 					changed = true
@@ -402,13 +412,53 @@ func (r *ref) longest(starts []string, hidden, reverse bool) map[string]int {
 				if r.by[v] == nil {
 					continue
 				}
-				if lv, ok := long[v]; !ok || lu+cost(u, v, hidden) > lv {
-					long[v] = lu + cost(u, v, hidden)
+				if lv, ok := long[v]; !ok || lu+cost(u, v, hidden, reverse) > lv {
+					long[v] = lu + cost(u, v, hidden, reverse)
 				}
 			}
 		}
 	}
 	return long
+}
+
+// all costs of dependency chains from the starts (a start itself: the empty chain, cost 0); the graphs are acyclic
+func (r *ref) costSets(starts []string, hidden, reverse bool) map[string]map[int]bool {
+	cs := map[string]map[int]bool{}
+	for _, n := range r.order {
+		cs[n] = map[int]bool{}
+	}
+	for _, s := range starts {
+		cs[s][0] = true
+	}
+	radj := map[string][]string{}
+	if reverse {
+		for _, u := range r.order {
+			for _, v := range r.edges(u, nil) {
+				radj[v] = append(radj[v], u)
+			}
+		}
+	}
+	for changed := true; changed; {
+		changed = false
+		for _, u := range r.order {
+			next := r.edges(u, nil)
+			if reverse {
+				next = radj[u]
+			}
+			for _, v := range next {
+				if cs[v] == nil {
+					continue
+				}
+				for c := range cs[u] {
+					if k := c + cost(u, v, hidden, reverse); k <= len(r.order)+1 && !cs[v][k] {
+						cs[v][k] = true
+						changed = true
+					}
+				}
+			}
+		}
+	}
+	return cs
 }
 
 func within(d, level int) bool { return d != inf && (level == -1 || d <= level) }
@@ -448,7 +498,9 @@ func diff(a, b map[string]bool) []string { // a \ b
 
 func pkgOf(i int) string { return []string{"p", "q"}[i] }
 
-func generate(r *lib.Rng, wf bool) gdesc {
+func generate(r *lib.Rng, mode int) gdesc {
+	wf := mode != 1 // well-named
+
 	npk := r.Range(1, 2)
 	ruleNames := []string{"a", "b", "c", "d", "e", "f", "g", "h", "k", "m"}
 	lib.Shuffle(r, ruleNames)
@@ -493,11 +545,11 @@ func generate(r *lib.Rng, wf bool) gdesc {
 	for _, blk := range blocks {
 		nodes = append(nodes, blk...)
 	}
-	if !wf && r.Chance(1, 2) {
+	if (!wf && r.Chance(1, 2)) || mode == 2 {
 		lib.Shuffle(r, nodes) // sub-targets before their rule, interleaved rules
 	}
 	pOther := r.Range(12, 35)
-	d := gdesc{WF: wf}
+	d := gdesc{WF: mode == 0, RC: mode == 2}
 	for i, n := range nodes {
 		td := tdesc{Label: n.label}
 		for j := i + 1; j < len(nodes); j++ {
@@ -577,6 +629,7 @@ type qrec struct {
 	Path    []string  `json:"path,omitempty"`
 	Printed []leveled `json:"printed,omitempty"`
 	Set     []string  `json:"set,omitempty"`
+	Unique  bool      `json:"unique,omitempty"`
 }
 
 type runner struct {
@@ -673,7 +726,7 @@ func (x *runner) deps(roots []string, hidden bool, level int) {
 	}
 	x.qs = append(x.qs, lib.App("QDeps", b.idList(roots), lib.Bool(hidden), lib.Z(int64(level)), lib.List(items)))
 	x.js = append(x.js, q)
-	if !b.d.WF {
+	if !b.d.oracleOK() {
 		return
 	}
 	c.Oracle()
@@ -707,7 +760,25 @@ func (x *runner) deps(roots []string, hidden bool, level int) {
 			}
 		}
 	}
+	// the harness's own "no target is reachable from the roots at two different costs" (cheapest = dearest chain),
+	// compared with the model's executable side condition unique_costb of the exactness theorem
+	unique := true
+	for n, dn := range minDist {
+		if maxLong[n] != dn {
+			unique = false
+		}
+	}
+	if level == -1 {
+		x.qs = append(x.qs, lib.App("QUniq", b.idList(roots), lib.Bool(hidden), lib.Bool(unique)))
+		x.js = append(x.js, qrec{Kind: "unique_cost", Roots: roots, Hidden: hidden, Unique: unique})
+		c.Hist("deps_unique_cost", fmt.Sprint(unique))
+	}
 	missing, extra := diff(want, got), diff(got, want)
+	if len(missing) > 0 && unique {
+		// proved impossible for the model (deps_exact_unique_cost): a miss here is a new defect, never the known finding
+		c.Fail("deps-omits-target-although-costs-unique", fmt.Sprintf("deps %v --level %d omits %v although every target has one cost only", roots, level, missing), x.input(q))
+		return
+	}
 	if len(extra) > 0 {
 		c.Fail("deps-reports-target-beyond-level", fmt.Sprintf("deps %v --level %d prints %v which are not within %d steps", roots, level, extra, level), x.input(q))
 	}
@@ -740,7 +811,7 @@ func (x *runner) revdeps(roots []string, hidden bool, level int) {
 	}
 	x.qs = append(x.qs, lib.App("QRev", b.idList(roots), lib.Bool(hidden), lib.Z(int64(level)), b.idList(printed)))
 	x.js = append(x.js, q)
-	if !b.d.WF {
+	if !b.d.oracleOK() {
 		return
 	}
 	c.Oracle()
@@ -759,14 +830,21 @@ func (x *runner) revdeps(roots []string, hidden bool, level int) {
 		}
 		d := r.dist(starts, hidden, true)
 		long := r.longest(starts, hidden, true)
-		for n, dn := range d {
-			if dn >= 1 && within(dn, level) {
-				if hidden {
-					want[n] = true
-				} else {
-					want[ruleOf(n)] = true
+		// SOME dependency chain of cost 1..level (not the cheapest one: when rules depend on each other cyclically
+		// through their sub-targets, a start - cheapest cost 0 - also has chains of positive cost, and its rule is a
+		// reverse dependency of itself)
+		for n, set := range r.costSets(starts, hidden, true) {
+			for cst := range set {
+				if cst >= 1 && within(cst, level) {
+					if hidden {
+						want[n] = true
+					} else {
+						want[ruleOf(n)] = true
+					}
 				}
 			}
+		}
+		for n, dn := range d {
 			if dn == inf {
 				continue
 			}
@@ -790,6 +868,11 @@ func (x *runner) revdeps(roots []string, hidden bool, level int) {
 	}
 	if len(missing) > 0 {
 		class := "revdeps-omits-target-within-level"
+		if hidden {
+			class = "revdeps-hidden-omits-target-within-level" // proved impossible for the model (revdeps_hidden_exact)
+		} else if level == -1 {
+			class = "revdeps-unlimited-omits-reverse-dependency" // proved impossible for the model (revdeps_unlimited_exact)
+		}
 		if level >= 1 && !hidden && multi {
 			class = "revdeps-fifo-depth-shadowed-by-zero-cost-edge"
 		}
@@ -840,6 +923,7 @@ func runGraph(c *lib.Ctx, r *lib.Rng, d gdesc, key string) {
 	}
 	c.HistN("targets", len(names))
 	c.Hist("wf", fmt.Sprint(d.WF))
+	c.Hist("rule_order_arbitrary", fmt.Sprint(d.RC))
 	c.Hist("multi_depth_node", fmt.Sprint(nontrivial))
 	x.flush(key, nontrivial)
 }
@@ -849,10 +933,11 @@ func main() {
 	lib.Main("C23", func(c *lib.Ctx) {
 		c.Model("From PlzV Require Import Model.C23.", "C23.case", "C23.check")
 		c.Rule("random acyclic graphs of 2-7 rules in 1-2 packages, each rule with 0-3 hidden `_x#tag` sub-targets, require/provide " +
-			"(incl. empty provides), denser edges inside a rule; two thirds well-formed (rule blocks contiguous, every sub-target's rule exists: " +
-			"oracle + correspondence), one third adversarial names (`__x#t`, `_zx#t1` without a rule, `_hx`, `x#x`, interleaved rules: correspondence only); " +
+			"(incl. empty provides), denser edges inside a rule; half well-formed (rule blocks contiguous, every sub-target's rule exists: " +
+			"oracle + correspondence), a quarter adversarial names (`__x#t`, `_zx#t1` without a rule, `_hx`, `x#x`, interleaved rules: correspondence only), " +
+			"a quarter well-named but in arbitrary order (a sub-target may depend on its own rule, rules may depend on each other cyclically through sub-targets: oracle + correspondence); " +
 			"plus fixed witnesses. Per graph: 6 somepath queries (random ends, except, showHidden, one with two from/to labels), " +
-			"deps and revdeps from 3 root sets x levels -1..5 x hidden. distinct = distinct graph; non-trivial = some target is reachable from the first root by paths of different cost")
+			"deps and revdeps from 3 root sets x levels -1..5 x hidden, and per deps root set the harness's own unique-cost test against the model's unique_costb. distinct = distinct graph; non-trivial = some target is reachable from the first root by paths of different cost")
 		var replay struct {
 			Graph gdesc `json:"graph"`
 			Query qrec  `json:"query"`
@@ -867,7 +952,7 @@ func main() {
 		n := c.Scale(150, 3000)
 		for i := 0; i < n; i++ {
 			r := c.Rng.Fork()
-			d := generate(r, i%3 != 2)
+			d := generate(r, []int{0, 0, 1, 2}[i%4])
 			runGraph(c, r, d, fmt.Sprint("g", i))
 		}
 	})
